@@ -83,43 +83,48 @@ theorem isMax_perm {s : Nat} {xs ys : List Nat} (hp : xs.Perm ys) (h : isMax s x
   simp only [isMax, Bool.and_eq_true, List.contains_iff_mem, List.all_eq_true, decide_eq_true_eq] at h ⊢
   exact ⟨hp.mem_iff.mp h.1, fun y hy => h.2 y (hp.mem_iff.mpr hy)⟩
 
-/-- MAIN LEMMA: AnnotationCollection -/
-theorem acoll_ok (genes fcs : List Member) (bnd : Option Nat × Option Nat) (hd : KeysDistinct (genes ++ fcs)) :
-    okAcoll genes fcs bnd (ansA (mkAcoll genes fcs bnd)) = true := by
+/-- MAIN LEMMA: AnnotationCollection (with or without a chromosome parent location `pb`) -/
+theorem acollP_ok (pb : Option (Nat × Nat)) (genes fcs : List Member) (bnd : Option Nat × Option Nat)
+    (hd : KeysDistinct (genes ++ fcs)) :
+    okAcollP pb genes fcs bnd (ansA (mkAcollP pb genes fcs bnd)) = true := by
   obtain ⟨bs, be⟩ := bnd
   cases bs with
   | none =>
     cases be with
     | some e => rfl
     | none =>
-      simp only [okAcoll, mkAcoll, pure, Except.pure, ansA_ok, Bool.and_eq_true]
+      simp only [okAcollP, mkAcollP, pure, Except.pure, ansA_ok, Bool.and_eq_true]
       refine ⟨okCommon_model genes fcs hd _, ?_⟩
-      unfold okBoundsInferred
-      cases hs : sortMembers (genes ++ fcs) with
-      | nil =>
-        have : genes ++ fcs = [] := by
-          have := (sortMembers_perm (genes ++ fcs)).length_eq
-          rw [hs] at this
-          exact List.length_eq_zero_iff.mp this.symm
-        rw [this]; rfl
-      | cons m rest =>
-        have hp := sortMembers_perm (genes ++ fcs)
-        rw [hs] at hp
-        have hne : (genes ++ fcs).isEmpty = false := by
-          cases h : genes ++ fcs with
-          | nil => rw [h] at hp; exact absurd hp.length_eq (by simp)
-          | cons _ _ => rfl
-        simp only [hne, Bool.false_eq_true, if_false, Bool.and_eq_true]
-        constructor
-        · apply isMin_perm ((hp.map (·.start)))
-          simpa using isMin_minFrom m.start (rest.map (·.start))
-        · apply isMax_perm ((hp.map (·.stop)))
-          simpa using isMax_maxFrom m.stop (rest.map (·.stop))
+      cases pb with
+      | some b => simp
+      | none =>
+        simp only
+        unfold okBoundsInferred
+        cases hs : sortMembers (genes ++ fcs) with
+        | nil =>
+          have : genes ++ fcs = [] := by
+            have := (sortMembers_perm (genes ++ fcs)).length_eq
+            rw [hs] at this
+            exact List.length_eq_zero_iff.mp this.symm
+          rw [this]; rfl
+        | cons m rest =>
+          have hp := sortMembers_perm (genes ++ fcs)
+          rw [hs] at hp
+          have hne : (genes ++ fcs).isEmpty = false := by
+            cases h : genes ++ fcs with
+            | nil => rw [h] at hp; exact absurd hp.length_eq (by simp)
+            | cons _ _ => rfl
+          simp only [hne, Bool.false_eq_true, if_false, Bool.and_eq_true]
+          constructor
+          · apply isMin_perm ((hp.map (·.start)))
+            simpa using isMin_minFrom m.start (rest.map (·.start))
+          · apply isMax_perm ((hp.map (·.stop)))
+            simpa using isMax_maxFrom m.stop (rest.map (·.stop))
   | some s =>
     cases be with
     | none => rfl
     | some e =>
-      simp only [okAcoll, mkAcoll]
+      simp only [okAcollP, mkAcollP]
       by_cases hse : s ≤ e
       · have : ¬ e < s := by omega
         simp only [hse, if_true, this, if_false, pure, Except.pure, ansA_ok, Bool.and_eq_true, beq_self_eq_true, and_true]
@@ -127,5 +132,9 @@ theorem acoll_ok (genes fcs : List Member) (bnd : Option Nat × Option Nat) (hd 
       · have : e < s := by omega
         simp only [hse, if_false, this, if_true]
         rfl
+
+theorem acoll_ok (genes fcs : List Member) (bnd : Option Nat × Option Nat) (hd : KeysDistinct (genes ++ fcs)) :
+    okAcoll genes fcs bnd (ansA (mkAcoll genes fcs bnd)) = true :=
+  acollP_ok none genes fcs bnd hd
 
 end BioCantor.Proofs.Agg
